@@ -69,6 +69,10 @@ Extra ==
      <<"ren", <<NText("pre("), RenderT(S("t1"), "none", NilE, "", <<WArg("v", V("v"))>>), NText(")post")>>>>,
      <<"u1", <<Extends("u2"), Block("a", FALSE, <<NText("<ua1>"), NOut(P(VP("block", "super"))), NText("</ua>")>>)>>>>,
      <<"u2", <<NText("{u:"), Block("a", FALSE, <<NText("<ua2/>")>>), NText("}")>>>>,
+     \* a plain template that includes an extending partial and then templates whose blocks
+     \* render directly (no chain in force any more)
+     <<"seq", <<Include(S("u1"), "none", NilE, "", <<>>), NText("|"), Include(S("u2"), "none", NilE, "", <<>>), NText("|"),
+                Block("a", FALSE, <<NText("own-a")>>), RenderT(S("u2"), "none", NilE, "", <<>>)>>>>,
      \* a root parent that includes an extending partial between its own blocks
      <<"mix1", <<Extends("mix2"), Block("a", FALSE, <<NText("<mixA>")>>), Block("b", FALSE, <<NText("<mixB>")>>)>>>>,
      <<"mix2", <<NText("M["), Block("a", FALSE, <<NText("a0")>>), NText("|"), Include(S("u1"), "none", NilE, "", <<>>),
@@ -146,5 +150,5 @@ Emit(main, last) ==
 
 Export ==
   done => /\ Emit("t1", "") /\ Emit("inc", "") /\ Emit("ren", "")
-          /\ (Len(chain) <= 2 => (Emit("t1", "t1") /\ Emit("t1", "nosuch") /\ Emit("mix1", "") /\ Emit("u1", "")))
+          /\ (Len(chain) <= 2 => (Emit("t1", "t1") /\ Emit("t1", "nosuch") /\ Emit("mix1", "") /\ Emit("u1", "") /\ Emit("seq", "")))
 =============================================================================
